@@ -140,6 +140,31 @@ theorem restart_keeps_history (g : Graph) (s : State) : (restart g s).rows = (at
     rw [hflush _ (this.2.1.trans hR1) (this.2.2.trans hR2), this.1, hR3]
   · rw [hflush _ hR1 hR2, hR3]
 
+/-! ### delivery: an output reported by the job is recorded, in any order of arrival -/
+
+/-- the first step of `process_message` for an output message of the task (`set_message_complete`): the output is
+among the completed outputs afterwards, whatever the status of the task and whatever arrived before - e.g. a custom
+output after `succeeded` (the delivery judge checks this on every message the real scheduler receives) -/
+theorem message_output_recorded (g : Graph) (x : Proxy) (msg : String) (forced : Bool)
+    (h : hasOutput g x msg = true) : ((setComplete g x msg forced).1.done.contains msg) = true := by
+  unfold setComplete
+  rw [h]
+  simp only [Bool.not_true, Bool.false_eq_true, if_false]
+  split
+  · rename_i hd; unfold Proxy.isDone at hd; exact hd
+  · simp
+
+/-- ... and completing an output never forgets one -/
+theorem message_keeps_outputs (g : Graph) (x : Proxy) (msg : String) (forced : Bool) :
+    ∀ m ∈ x.done, m ∈ (setComplete g x msg forced).1.done := by
+  intro m hm
+  unfold setComplete
+  split
+  · exact hm
+  · split
+    · exact hm
+    · simp [hm]
+
 /-! ### the full statement is false: flow wait and outputs -/
 
 /-- every pooled proxy keeps its flow-wait flag over a restart -/
